@@ -689,6 +689,81 @@ func (c *Ctx) c18Perm() {
 	}
 }
 
+// ---------------------------------------------------------------- permlimit stream (two faults at once)
+
+// c18PermLimit: the temp file cannot be created (directory not writable for the user, the journal itself is) AND the
+// file size limit cuts every write short. Whatever a command does when it cannot create its temp file, the journal
+// must still be the complete old or the complete new file. Both `format` and `infer -i`.
+func (c *Ctx) c18PermLimit() {
+	nfiles := c.N(24, 120)
+	perFile := c.N(6, 24)
+	scratch := filepath.Join(c.WorkDir, "render")
+	probe := c.c18Exec(c18Run{Dir: filepath.Join(c.WorkDir, "permlimit-probe"), Files: map[string][]byte{"x.knut": []byte("")}, Modes: map[string]os.FileMode{"x.knut": 0o644},
+		Argv: []string{"format", "x.knut"}, Limit: 1 << 20, AsNobody: true, DirMode: 0o777})
+	if probe.Exit != 0 {
+		c.Notes = append(c.Notes, "permlimit stream skipped: cannot run knut as an unprivileged user under a size limit here: "+clip(probe.Stderr))
+		c.Extra["permlimit_stream"] = "skipped"
+		return
+	}
+	bt := c.NewBatch()
+	defer bt.Flush()
+	for fi := 0; fi < nfiles; fi++ {
+		if c.Replay && c.OnlyIndex/100000 != fi {
+			continue
+		}
+		r := c.Rng("permlimit", fi)
+		kind := Pick(r, []string{"plain", "plain", "big", "formatted"})
+		infer := fi%2 == 0
+		var f c18File
+		var argv []string
+		files := map[string][]byte{}
+		modes := map[string]os.FileMode{}
+		others := map[string]string{}
+		if infer {
+			f = c18File{Name: "target.knut", Old: []byte(c18InferTarget(r, kind)), Mode: Pick(r, []os.FileMode{0o644, 0o600}), Kind: "infer-" + kind}
+			argv = []string{"infer", "-i", "-t", "training.knut", "target.knut"}
+			f.New = c.c18Render(scratch, func(t string) []string { return []string{"infer", "-i", "-t", "training.knut", t} }, f.Name, f.Old,
+				map[string][]byte{"training.knut": []byte(c18Training)})
+			files["training.knut"] = []byte(c18Training)
+			modes["training.knut"] = 0o644
+			others["training.knut"] = fieldOf([]byte(c18Training), 0o644)
+		} else {
+			f = c.c18GenFile(r, scratch, "journal.knut", kind)
+			f.Mode = Pick(r, []os.FileMode{0o644, 0o600})
+			argv = []string{"format", f.Name}
+		}
+		files[f.Name] = f.Old
+		modes[f.Name] = f.Mode
+		dirMode := Pick(r, []os.FileMode{0o555, 0o555, 0o555, 0o500, 0o755})
+		fault := "-"
+		if dirMode&0o200 == 0 {
+			fault = "createTemp"
+		}
+		for _, k := range c18Limits(r, len(f.New), len(f.Old), perFile, false) {
+			i := fi*100000 + k
+			if k >= 100000 || !c.Want("permlimit", i) {
+				continue
+			}
+			dir := filepath.Join(c.WorkDir, "permlimit")
+			pr := c.c18Exec(c18Run{Dir: dir, Files: files, Modes: modes, Argv: argv, Limit: k, AsNobody: true, DirMode: dirMode})
+			os.Chmod(filepath.Join(dir, f.Name), 0o644)
+			obs := c18Observe(dir, f.Name, []string{f.Name, "training.knut"})
+			if obs.Target != "absent" {
+				st := strings.SplitN(obs.Target, ":", 2)
+				obs.Target = fmt.Sprintf("%d:%s", int(f.Mode), st[1])
+			}
+			in := map[string]any{"argv": argv, "uid": 65534, "dir_mode": fmt.Sprintf("%o", dirMode), "file_mode": fmt.Sprintf("%o", f.Mode), "file_kind": f.Kind, "RLIMIT_FSIZE": k,
+				"old": string(f.Old), "new_len": len(f.New)}
+			cut := "fits"
+			if f.New != nil && k < len(f.New) {
+				cut = "cut"
+			}
+			c.Class(fmt.Sprintf("permlimit/%s/dir%o/%s/%s/%s", argv[0], dirMode, f.Kind, cut, fault))
+			c.c18Check(bt, "permlimit", i, in, f, f.Mode, pr, obs, k, [][2]string{{fault, "0"}}, others, nil)
+		}
+	}
+}
+
 // ---------------------------------------------------------------- multi stream
 
 func (c *Ctx) c18Multi() {
@@ -927,7 +1002,7 @@ func runC18(c *Ctx) {
 	streams := []struct {
 		name string
 		f    func()
-	}{{"facts", c.c18Facts}, {"limit", c.c18Limit}, {"inject", c.c18InjectStream}, {"perm", c.c18Perm}, {"multi", c.c18Multi}}
+	}{{"facts", c.c18Facts}, {"limit", c.c18Limit}, {"inject", c.c18InjectStream}, {"perm", c.c18Perm}, {"permlimit", c.c18PermLimit}, {"multi", c.c18Multi}}
 	for _, s := range streams {
 		if c.Replay && c.OnlyStr != s.name && !(s.name == "limit" && c.OnlyStr == "limit-directed") {
 			continue
